@@ -160,9 +160,10 @@ def case_lanczos(ck, rng, bad):
         # documented: padded with zeros after an early breakdown
         if np.max(np.abs(T[r:, :]), initial=0) > 1e-9 * sA or np.max(np.abs(B[r:]), initial=0) > 0:
             bad("lanczos:padding", "output not padded with zeros after breakdown")
-        if r > distinct + 0 and kind in ("repeated", "uniform"):
-            bad("lanczos:krylov-dimension", "Krylov dimension exceeds the number of distinct eigenvalues",
-                r=r, distinct=int(distinct))
+    if r > distinct and kind in ("repeated", "uniform"):
+        # breakdown threshold is absolute (1e-12): rounding noise can restart the recurrence inside a
+        # degenerate eigenspace; all invariants below still have to hold -> observation only
+        ck.hit("lanczos_missed_breakdown")
     th = np.linalg.eigvalsh(Tr)
     # Ritz values inside the spectrum
     if th.min() < ev[-1] * (1 - 1e-9) - 1e-12 * sA or th.max() > ev[0] * (1 + 1e-9):
